@@ -86,6 +86,45 @@ def edit_rules(rng, rules):
     return out
 
 
+def _addr_value(ip):
+    import ipaddress
+    a = ipaddress.ip_address(ip)
+    return ((0xffff << 32) | int(a)) if a.version == 4 else int(a)
+
+
+def straddle(s, rng, rules, svcs, cid):
+    """The rule that is looked at first decides by address alone; its address is edited in place (same number of rules) between
+    clients that all come from one address: match, no match, match again under another spelling."""
+    import copy
+    import classmodel
+    real = [r for r in classmodel.sorted_rules(rules) if "_plain" not in r]
+    if not real:
+        return rules, cid
+    ip = rng.choice(IPS)
+    v = _addr_value(ip)
+    hit = [p for p in ADDR_PATS if classmodel.mask_match(v, *classmodel.parse_mask(p))]
+    miss = [p for p in ADDR_PATS if p not in hit]
+    seq = [rng.choice(hit), rng.choice(miss), rng.choice(hit), rng.choice(miss)][:rng.choice([2, 3, 4])]
+    if rng.random() < 0.5:
+        seq = seq[1:] + [rng.choice(hit)]
+    name = real[0]["name"]
+    for pat in seq:
+        rules = copy.deepcopy(rules)
+        for r in rules:
+            if r["name"] == name:
+                for k in ("account", "username", "hostname", "xreply_ok"):
+                    r.pop(k, None)
+                r["address"] = pat
+                r["class"] = "straddle"
+        s.do({"t": "reload", "services": [list(x) for x in svcs], "rules": rules})
+        for _ in range(rng.choice([1, 1, 2])):
+            probe(s, rng, cid, rules, ip=ip)
+            cid += 1
+            if s.dead:
+                return rules, cid
+    return rules, cid
+
+
 def probe(s, rng, cid, rules, ip=None):
     """One probe client: attributes chosen to hit or just miss the criteria, then forced to a verdict."""
     ip0 = rng.choice(IPS)
@@ -196,6 +235,10 @@ def _worker(a):
             probe(s, rng, 10 + k, rules, ip=force_ip)
             if s.dead:
                 break
+            if seed % 4 == 1 and k == nprobes // 2:
+                rules, _ = straddle(s, rr, rules, svcs, 5000)
+                if s.dead:
+                    break
         s.do({"t": "stats"})
         s.finish()
     except Exception:
